@@ -188,6 +188,21 @@ let do_gen rest =
                      (String.concat "," (List.map (fun c -> string_of_int (int_of_nat c)) counts)))
   | _ -> failwith "gen: args"
 
+(* cli <id> strict src out openin openout read parse compile *)
+let do_cli rest =
+  match String.split_on_char ' ' rest with
+  | [cid; st; sr; ou; a; b; c; d; e] ->
+    let bb x = (x = "1") in
+    let i = { ci_strict = bb st; ci_src = (if sr = "file" then SrcFile else SrcStdin);
+              ci_out = (match ou with "unset" -> OutUnset | "named" -> OutNamed | _ -> OutDash);
+              ci_open_in_ok = bb a; ci_open_out_ok = bb b; ci_read_ok = bb c; ci_parse_ok = bb d;
+              ci_compile = (match e with "ok" -> CompOk | "warn" -> CompWarn | "tmpl" -> CompTemplateErr | _ -> CompInvalidGo) } in
+    let o = x_cli_model i in
+    let ds = function DestGrammarGo -> "grammar.go" | DestNamed -> "named" | DestStdout -> "stdout" in
+    print_endline (Printf.sprintf "cli %s :: exit0=%d msg=%d complete=%s" cid (if o.co_exit_zero then 1 else 0) (if o.co_message then 1 else 0)
+                     (match o.co_complete with None -> "-" | Some d -> ds d))
+  | _ -> failwith "cli: args"
+
 let () =
   try
     while true do
@@ -206,6 +221,7 @@ let () =
            | "run" -> do_run rest
            | "spec" -> do_spec rest
            | "gen" -> do_gen rest
+           | "cli" -> do_cli rest
            | _ -> print_endline ("ERR unknown command " ^ cmd))
         with
         | Stack_overflow -> print_endline ("ERR stack overflow: " ^ (String.sub line 0 (min 60 (String.length line))))
